@@ -20,7 +20,7 @@ LEVEL = "exploration"
 RULE = (
     "one map per configuration (default incl. Submount / Subdomain / per-method rules of one endpoint / websocket "
     "rules, defaults twins declared after the general rule, variable subdomain, host_matching incl. host rules in "
-    "a Submount, default_subdomain, sort_parameters, rule factories: EndpointPrefix, RuleTemplate with templated "
+    "a Submount, default_subdomain, sort_parameters, in-rule defaults (the default's variable is also a placeholder: fixed_digits int, int default of a float converter, quoted string, path, signed fixed_digits, uuid below a Submount), rule factories: EndpointPrefix, RuleTemplate with templated "
     "defaults, nested Submount / Subdomain / EndpointPrefix) with one rule per converter form; values: every string of <= 2 atoms over a 27-atom alphabet plus every string of 3 atoms over the 12 critical atoms (thorough: <= 3 atoms over all 27) "
     "(letters, non-ASCII, astral, space, every URL delimiter, '%', '%2F', '.', backslash, control characters "
     "incl. newline) filtered by the converter's documented domain, ints incl. signed / fixed_digits, floats with "
@@ -85,6 +85,9 @@ INTS = [0, 1, 7, 10, 123, 999, 1000, 2 ** 64]
 FLOATS = [0.0, 1.5, 10.25, 100.125, 123456789.125, 0.001]
 
 
+_IRN = ["x", "\u00e9", "a b", "7", "0007", "2", "%2F", ";?"]
+
+
 def value_sets(tier):
     T = tier == "thorough"
     S2 = strings(2)
@@ -124,6 +127,10 @@ def value_sets(tier):
         "mgs": [{"a": -5, "b": "-5", "c": -5.0, "d": "-5.0"}, {"a": 2, "b": "2.5", "c": 2.5, "d": "2"}],
         "smis": [{"a": 5, "b": "5", "c": 5}, {"a": 5, "b": "6", "c": 6}, {"a": 1, "b": "2", "c": 1}],
         "mvs": [{"sub": "5", "a": 5, "b": "5"}, {"sub": "u1", "a": 5, "b": "u1"}, {"sub": "7", "a": 5, "b": "7"}],
+        # in-rule defaults (the default's variable is a placeholder of the rule): given explicitly and left out
+        "ird": [{"num": 7, "name": n} for n in _IRN], "irf": [{"f": 2, "name": n} for n in _IRN],
+        "irs": [{"s": "a b;\u00e9?%2F", "name": n} for n in _IRN], "irp": [{"p": "x/y z", "name": n} for n in _IRN],
+        "irg": [{"g": -5, "name": n} for n in _IRN], "iru": [{"u": U1, "name": n} for n in _IRN],
         # values equal to / different from falsy and truthy defaults
         "zl": [0, 1, 2, 10], "z0": [0, 1, 2], "zf": [0.0, 1.0, 2.5, -0.0][:3], "zs": [0, 1, -1, 5],
         "it": [(2, False), (2, True), (0, False), (0, True)], "e0": [(2, ""), (2, "x"), (0, ""), (0, "x")],
@@ -289,6 +296,19 @@ def rules_multi():
     ]
 
 
+def rules_inrule():
+    """defaults for a variable that is ALSO a placeholder of the rule: the builder folds converter.to_url(default)
+    into the URL as a constant, which the rule's own regex has to accept again (padding, float text, quoting)"""
+    return [
+        Rule("/inv/<int(fixed_digits=4):num>/<string:name>", endpoint="ird", defaults={"num": 7}),
+        Rule("/flt/<float:f>/x/<string:name>", endpoint="irf", defaults={"f": 2}),
+        Rule("/irs/<string:s>/t/<string:name>", endpoint="irs", defaults={"s": "a b;\u00e9?%2F"}),
+        Rule("/irp/<path:p>/e/<string:name>", endpoint="irp", defaults={"p": "x/y z"}),
+        Rule("/irg/<int(fixed_digits=3, signed=True):g>/<string:name>", endpoint="irg", defaults={"g": -5}),
+        Submount("/sub", [Rule("/iru/<uuid:u>/<string:name>", endpoint="iru", defaults={"u": U1})]),
+    ]
+
+
 def rules_subvar():
     return [Rule("/u/<v>", subdomain="<user>", endpoint="su"), Rule("/", endpoint="root")]
 
@@ -313,6 +333,7 @@ CONFIGS = {
     "multi": (rules_multi, {}, ["mis", "msi", "mfs", "mus", "mds", "mip", "mas", "mgs", "smis", "mvs"]),
     "falsy": (rules_falsy, {}, ["zl", "z0", "zf", "zs", "it", "e0"]),
     "falsyrev": (rules_falsyrev, {}, ["zl", "z0", "zf", "zs", "it", "e0"]),
+    "inrule": (rules_inrule, {}, ["ird", "irf", "irs", "irp", "irg", "iru"]),
     "subvar": (rules_subvar, {}, ["su"]),
     "defsub": (rules_defsub, {"default_subdomain": "www"}, ["dx", "dy"]),
     "sorted": (rules_sorted, {"sort_parameters": True}, ["so"]),
